@@ -87,7 +87,15 @@ def nontrivial(case, obs):
   return sum(1 for a, b in zip(ch, ch[1:]) if a != b) >= 10
 
 
+def pool_too_small(case):
+  """two-level piter on a pool given by the caller with fewer workers than tasks (inputs + parallelism)"""
+  return bool(case.get('api') == 'piter2' and case.get('workers') and
+              case['workers'] < len(case['inputs']) + case['par'])
+
+
 def finding(case, what):
+  if pool_too_small(case):
+    return 'F-C13-pool-small'
   return None
 
 
@@ -109,11 +117,19 @@ def extra(ctx):
   cases = []
   for i in range(n):
     case = lp.gen_case(ctx.rng, quick=ctx.quick, api='piter2' if i % 10 == 9 else None)
+    if pool_too_small(case):       # known open finding, reproduced in stage 1 (it costs a join timeout here)
+      case['workers'] = 0
     case['sched'] = None
     case['stage'] = 'real_threads'
     case['jitter'] = ctx.rng.randrange(10**9)
     ctx.count('real_threads_api', case['api'])
     cases.append(case)
+  # directed: more input iterators than the default pool has workers (finding F-C13-starve, repaired)
+  cases.append(dict(api='piter2', par=2, cap=0, workers=0, inputs=[[10 * i + 1, 10 * i + 2] for i in range(40)],
+                    fn='inc', fail_on=None, num_steps=None, max_batch=0, sched=None, stage='real_threads', jitter=1))
+  cases.append(dict(api='piter2', par=2, cap=0, workers=0, inputs=[[10 * i + 1, 10 * i + 2] for i in range(40)],
+                    fn='inc', fail_on=None, num_steps=3, max_batch=0, sched=None, stage='real_threads', jitter=2))
+  n = len(cases)
   obs = lr.run_cases(cases, deadline=40.0 if ctx.quick else 600.0)
   infra = sum(1 for o in obs if o.get('infra'))
   if infra:
